@@ -39,9 +39,11 @@ def run_monitor_kinds(chk: Check, rng: random.Random, thorough: bool):
         budget = None
     else:
         mcs = [("all-default-c2", consts(ALL, False, 2, 0), 4), ("all-custom-c1", consts(ALL, True, 1, 0), 4)]
-        gens = [("g-diff", consts(("diff",), True, 1, 0)), ("g-state", consts(("state",), True, 1, 0)),
+        # two calls: what a monitor saw at one call must not leak into the next (a stale pre-call value, seeded C15-m5)
+        gens = [("g-diff", consts(("diff",), False, 2, 0)), ("g-diff-custom", consts(("diff",), True, 1, 0)),
+                ("g-state", consts(("state",), False, 2, 0)),
                 ("g-in+out+multi", consts(("input", "output", "multi"), False, 1, 1))]
-        budget = 40
+        budget = 60
     ex = ThreadPoolExecutor(max_workers=8)
     gen_f = [ex.submit(_gen, j) for j in gens]
     mc_f = [ex.submit(_mc, j) for j in mcs]
